@@ -75,4 +75,15 @@ CHECKS = {
                 "Trusted: Lean kernel + 3 axioms, C01's correspondence for the model, the harness.",
         "technique": "Lean 4 proof (idempotence lemmas over faithful string models) + multi-round differential oracle on the real pipeline",
     },
+    "C03": {
+        "text": "Lean theorem: for any family of hops, any observation and any domain closed under hops on which each single hop preserves the "
+                "observation, every chain of hops of ANY length preserves it, and any two chains agree (commutation) - induction over the list of "
+                "formats; chains compose. The single-hop premises are the per-format round trips (C01/C02); on the real code they are evaluated "
+                "end-to-end for every chain of length <= 3 over the 5 formats (155 chains per interface, exhaustive) plus sampled chains of "
+                "length 4-5, reporting each chain at its first diverging hop.",
+        "note": "Partial: the theorem is parametric in the hops (its premises are observed on the real pipeline, not proved for the code); 11 known "
+                "findings record where the unchanged code breaks a premise (parameters without default through function/argparse, None and complex "
+                "defaults, long wrapped string defaults). Trusted: Lean kernel (no axioms needed), the harness.",
+        "technique": "Lean 4 proof (induction over the conversion sequence, parametric in the hops) + exhaustive short-chain oracle on the real pipeline",
+    },
 }
